@@ -19,7 +19,7 @@ RES="$RES tests=[$TESTS] demo_with=$DW demo_without=$DWO"
 git -C /repo diff --quiet || { echo "$RES /repo not clean"; exit 2; }
 git -C /repo apply $B/$ID$V.rebased.diff || { echo "$RES rebased patch does not apply to /repo"; exit 3; }
 CHK="${3:-$ID}"
-./check "$CHK" --tier quick > $B/$ID$V.check.log 2>&1; RC=$?
+VERIF_EVIDENCE_DIR=/tmp/seed-evidence ./check "$CHK" --tier quick > $B/$ID$V.check.log 2>&1; RC=$?
 git -C /repo checkout -- .
 NV=$(grep -c '^VIOLATION' $B/$ID$V.check.log)
 echo "$RES check=$CHK rc=$RC violations=$NV $(grep '^SUMMARY' $B/$ID$V.check.log | cut -d' ' -f4-12)"
